@@ -92,6 +92,8 @@ PIPES = {"orient": ec.pipe("orient"), "orientx": float_pipe}
 
 
 def run(ctx, verdict):
+    # the design laws for ALL integer points (TLAPS): antisymmetry, cyclic and translation invariance, collinear iff zero
+    vlib.tlapm(ctx, "ExactGeomProofs", ["ExactGeom"])
     ec.family(ctx, verdict, "orient", nontrivial=lambda c: c["a"] != c["b"])
     n = 480 if ctx.quick else 6000
     cases = float_cases(ctx.seed, n)
